@@ -571,6 +571,7 @@ impl<B, T, U, N: ArrayLength, F: Foreign2<B, T, U>> ForeignIter<U> for PlainZipP
         raise ex.LostAnchor('trait FunctionalSequence not found')
     ti = mt.end() - 1
     tblock = ftext[ti + 1:ex.match_brace(ftext, ti)]
+    g.default_not_overridden('FunctionalSequence', 'map', ('for GenericArray<T, N>',))
     f = ex.find_fn(tblock, 'map', ti + 1, ftext)
     body = ex.normalize(f['body'])
     n = ex.statements(body)
@@ -777,6 +778,7 @@ impl<%(lt)sA, B, U, N: ArrayLength, F: Foreign2<%(fa)s, %(fb)s, U>> ForeignIter<
         raise ex.LostAnchor('trait GenericSequence not found')
     ti = mt.end() - 1
     tblock = stext[ti + 1:ex.match_brace(stext, ti)]
+    g.default_not_overridden('GenericSequence', 'inverted_zip', ('for GenericArray<T, N>',))
     f = ex.find_fn(tblock, 'inverted_zip', ti + 1, stext)
     body = ex.normalize(f['body'])
     n = ex.statements(body)
@@ -810,6 +812,7 @@ impl<%(lt)sA, B, U, N: ArrayLength, F: Foreign2<%(fa)s, %(fb)s, U>> ForeignIter<
                  stats, n, ['C03', 'C04', 'C08']))
 
     # ---- (3) trait default GenericSequence::inverted_zip2: both operands by reference ----
+    g.default_not_overridden('GenericSequence', 'inverted_zip2', ('for GenericArray<T, N>',))
     f = ex.find_fn(tblock, 'inverted_zip2', ti + 1, stext)
     body = ex.normalize(f['body'])
     n = ex.statements(body)
